@@ -9,6 +9,19 @@
 //	clientid san x<hex> <parsed>     clientAddr(string).String()
 //	clientid bb|bb0 <cap> <events>   real server: WebSocket carriers + KCP/smux sessions
 //	                                 (c = carrier, a = new session + first stream, t<k> = further stream of session k)
+//	clientid burst <cap> <events>    the same plus bursts  b<m>+<id>.<streams>.<rank>+...: the sessions
+//	                                 of the items (distinct ClientIDs, one unused carrier each) are set
+//	                                 up with their first packets held back; then all first packets are
+//	                                 delivered together, so that the KCP listener queues the sessions
+//	                                 and acceptSessions accepts them back to back:
+//	                                   m=1  injected into the server's QueuePacketConn in one go while the
+//	                                        process runs on one P (the accept loop gets through all of
+//	                                        them before any session goroutine is scheduled)
+//	                                   m=n  injected in one go, scheduler left alone
+//	                                   m=w  released through the WebSocket carriers concurrently
+//	                                 every stream announces (session, stream number) in its first bytes,
+//	                                 so each accepted connection is attributed to its session whatever
+//	                                 the order of arrival; output: per item, RemoteAddr() of its streams
 package snowflake_server
 
 import (
@@ -20,6 +33,7 @@ import (
 	"net"
 	"net/url"
 	"os"
+	"runtime"
 	"strconv"
 	"strings"
 	"sync"
@@ -59,7 +73,7 @@ func verifC18(args []string) string {
 			return "!badcase"
 		}
 		return verifAddrPrint(clientAddr(string(s)))
-	case "bb", "bb0":
+	case "bb", "bb0", "burst":
 		return verifBlackBox(args[1], args[2])
 	}
 	return "!badcase"
@@ -143,6 +157,8 @@ type verifPacketConn struct {
 	conn net.Conn
 	bw   *bufio.Writer
 	lock sync.Mutex
+	hold bool     // keep outgoing packets instead of sending them
+	held [][]byte // the packets kept back, in order
 }
 
 func (c *verifPacketConn) ReadFrom(p []byte) (int, net.Addr, error) {
@@ -156,6 +172,10 @@ func (c *verifPacketConn) ReadFrom(p []byte) (int, net.Addr, error) {
 func (c *verifPacketConn) WriteTo(p []byte, addr net.Addr) (int, error) {
 	c.lock.Lock()
 	defer c.lock.Unlock()
+	if c.hold {
+		c.held = append(c.held, append([]byte(nil), p...))
+		return len(p), nil
+	}
 	_, err := encapsulation.WriteData(c.bw, p)
 	if err == nil {
 		err = c.bw.Flush()
@@ -266,6 +286,28 @@ func verifBlackBox(capTok, evTok string) (result string) {
 		}
 		return ""
 	}
+	// a KCP + smux client over a carrier (what client/lib does); hold: keep its packets back
+	newSession := func(conn net.Conn, hold bool) (*verifPacketConn, *smux.Session, string) {
+		pconn := &verifPacketConn{conn: conn, bw: bufio.NewWriter(conn), hold: hold}
+		kc, err := kcp.NewConn2(verifAddr{}, nil, 0, 0, pconn)
+		if err != nil {
+			return nil, nil, "!kcp " + err.Error()
+		}
+		closers = append(closers, kc)
+		kc.SetStreamMode(true)
+		kc.SetWindowSize(WindowSize, WindowSize)
+		kc.SetNoDelay(0, 0, 0, 1)
+		cfg := smux.DefaultConfig()
+		cfg.Version = 2
+		cfg.KeepAliveTimeout = 10 * time.Minute
+		cfg.MaxStreamBuffer = StreamSize
+		sess, err := smux.Client(kc, cfg)
+		if err != nil {
+			return nil, nil, "!smux " + err.Error()
+		}
+		closers = append(closers, sess)
+		return pconn, sess, ""
+	}
 	for _, ev := range wire.List(evTok) {
 		switch ev[0] {
 		case 'c':
@@ -313,24 +355,10 @@ func verifBlackBox(capTok, evTok string) (result string) {
 			}
 			conn := unused[id][0]
 			unused[id] = unused[id][1:]
-			pconn := &verifPacketConn{conn: conn, bw: bufio.NewWriter(conn)}
-			kc, err := kcp.NewConn2(verifAddr{}, nil, 0, 0, pconn)
-			if err != nil {
-				return "!kcp " + err.Error()
+			_, sess, e := newSession(conn, false)
+			if e != "" {
+				return e
 			}
-			closers = append(closers, kc)
-			kc.SetStreamMode(true)
-			kc.SetWindowSize(WindowSize, WindowSize)
-			kc.SetNoDelay(0, 0, 0, 1)
-			cfg := smux.DefaultConfig()
-			cfg.Version = 2
-			cfg.KeepAliveTimeout = 10 * time.Minute
-			cfg.MaxStreamBuffer = StreamSize
-			sess, err := smux.Client(kc, cfg)
-			if err != nil {
-				return "!smux " + err.Error()
-			}
-			closers = append(closers, sess)
 			sessions = append(sessions, sess)
 			if e := openAndAccept(sess); e != "" {
 				return e
@@ -343,9 +371,234 @@ func verifBlackBox(capTok, evTok string) (result string) {
 			if e := openAndAccept(sessions[k]); e != "" {
 				return e
 			}
+		case 'b':
+			if len(ev) < 4 || ev[2] != '+' {
+				return "!badcase"
+			}
+			if e := verifBurst(ln, ev[1], strings.Split(ev[3:], "+"), unused, &sessions, &closers, &out, newSession); e != "" {
+				return e
+			}
 		default:
 			return "!badcase"
 		}
 	}
 	return wire.PrintList(out)
+}
+
+type verifBurstItem struct {
+	id    turbotunnel.ClientID
+	n     int
+	pconn *verifPacketConn
+	sess  *smux.Session
+	index int // session index (position among all sessions of the scenario)
+}
+
+// verifTagged accepts connections until want of them have been attributed by the tag their
+// client wrote first ("s<session>.<stream>\n"); res[session index][stream] = RemoteAddr().
+func verifTagged(ln *SnowflakeListener, want int, res map[int][]string, closers *[]io.Closer) string {
+	type tagged struct {
+		sess, stream int
+		addr         string
+		err          string
+	}
+	ch := make(chan tagged, want)
+	deadline := time.Now().Add(40 * time.Second)
+	for k := 0; k < want; k++ {
+		type acc struct {
+			c   net.Conn
+			err error
+		}
+		ach := make(chan acc, 1)
+		go func() {
+			c, err := ln.Accept()
+			ach <- acc{c, err}
+		}()
+		var a acc
+		select {
+		case a = <-ach:
+		case <-time.After(time.Until(deadline)):
+			return "!accept-timeout"
+		}
+		if a.err != nil {
+			return "!accept " + a.err.Error()
+		}
+		*closers = append(*closers, a.c)
+		go func(c net.Conn) {
+			addr := verifAddrPrint(c.RemoteAddr())
+			line, err := bufio.NewReader(c).ReadString('\n')
+			if err != nil {
+				ch <- tagged{err: "!tag-read " + err.Error()}
+				return
+			}
+			var t tagged
+			if _, err := fmt.Sscanf(line, "s%d.%d\n", &t.sess, &t.stream); err != nil {
+				ch <- tagged{err: "!tag " + strconv.Quote(line)}
+				return
+			}
+			t.addr = addr
+			ch <- t
+		}(a.c)
+	}
+	for k := 0; k < want; k++ {
+		select {
+		case t := <-ch:
+			if t.err != "" {
+				return t.err
+			}
+			r, ok := res[t.sess]
+			if !ok || t.stream < 0 || t.stream >= len(r) || r[t.stream] != "" {
+				return fmt.Sprintf("!tag-unexpected s%d.%d", t.sess, t.stream)
+			}
+			r[t.stream] = t.addr
+		case <-time.After(time.Until(deadline)):
+			return "!tag-timeout"
+		}
+	}
+	return ""
+}
+
+func verifBurst(ln *SnowflakeListener, mode byte, toks []string, unused map[turbotunnel.ClientID][]net.Conn,
+	sessions *[]*smux.Session, closers *[]io.Closer, out *[]string,
+	newSession func(conn net.Conn, hold bool) (*verifPacketConn, *smux.Session, string)) string {
+	var items []*verifBurstItem
+	seen := map[turbotunnel.ClientID]bool{}
+	for _, t := range toks {
+		f := strings.Split(t, ".")
+		if len(f) != 3 {
+			return "!badcase"
+		}
+		n, err := strconv.Atoi(f[1])
+		if err != nil || n < 1 {
+			return "!badcase"
+		}
+		id := verifID(f[0])
+		if seen[id] || len(unused[id]) == 0 {
+			return "!badcase burst needs distinct ClientIDs with an unused carrier each"
+		}
+		seen[id] = true
+		items = append(items, &verifBurstItem{id: id, n: n})
+	}
+	res := map[int][]string{}
+	for _, it := range items {
+		conn := unused[it.id][0]
+		unused[it.id] = unused[it.id][1:]
+		pc, sess, e := newSession(conn, true)
+		if e != "" {
+			return e
+		}
+		it.pconn, it.sess, it.index = pc, sess, len(*sessions)
+		*sessions = append(*sessions, sess)
+		res[it.index] = make([]string, it.n)
+		// the first stream: its SYN and data go into the held packets
+		st, err := sess.OpenStream()
+		if err != nil {
+			return "!stream " + err.Error()
+		}
+		if _, err := st.Write([]byte(fmt.Sprintf("s%d.0\n", it.index))); err != nil {
+			return "!stwrite " + err.Error()
+		}
+	}
+	// what each session has produced so far (at least the packet that creates the session)
+	first := make([][][]byte, len(items))
+	for k, it := range items {
+		it.pconn.lock.Lock()
+		first[k] = it.pconn.held
+		it.pconn.held = nil
+		it.pconn.lock.Unlock()
+		if len(first[k]) == 0 {
+			return "!no-first-packet"
+		}
+	}
+	release := func() {
+		for _, it := range items {
+			it.pconn.lock.Lock()
+			it.pconn.hold = false
+			late := it.pconn.held
+			it.pconn.held = nil
+			it.pconn.lock.Unlock()
+			for _, p := range late {
+				it.pconn.WriteTo(p, nil)
+			}
+		}
+	}
+	switch mode {
+	case '1', 'n':
+		h, ok := ln.server.Handler.(*httpHandler)
+		if !ok {
+			return "!handler"
+		}
+		procs := 0
+		if mode == '1' {
+			procs = runtime.GOMAXPROCS(1)
+		}
+		for k, it := range items {
+			for _, p := range first[k] {
+				h.pconn.QueueIncoming(p, it.id)
+			}
+		}
+		e := verifTagged(ln, len(items), res, closers)
+		if mode == '1' {
+			runtime.GOMAXPROCS(procs)
+		}
+		release()
+		if e != "" {
+			return e
+		}
+	case 'w':
+		var wg sync.WaitGroup
+		start := make(chan struct{})
+		for k, it := range items {
+			wg.Add(1)
+			go func(k int, it *verifBurstItem) {
+				defer wg.Done()
+				<-start
+				it.pconn.lock.Lock()
+				it.pconn.hold = false
+				ps := append(first[k], it.pconn.held...)
+				it.pconn.held = nil
+				for _, p := range ps {
+					encapsulation.WriteData(it.pconn.bw, p)
+				}
+				it.pconn.bw.Flush()
+				it.pconn.lock.Unlock()
+			}(k, it)
+		}
+		close(start)
+		wg.Wait()
+		if e := verifTagged(ln, len(items), res, closers); e != "" {
+			return e
+		}
+	default:
+		return "!badcase"
+	}
+	// the remaining streams of the sessions, round robin, all in flight together
+	more := 0
+	for s := 1; ; s++ {
+		any := false
+		for _, it := range items {
+			if s < it.n {
+				any = true
+				st, err := it.sess.OpenStream()
+				if err != nil {
+					return "!stream " + err.Error()
+				}
+				if _, err := st.Write([]byte(fmt.Sprintf("s%d.%d\n", it.index, s))); err != nil {
+					return "!stwrite " + err.Error()
+				}
+				more++
+			}
+		}
+		if !any {
+			break
+		}
+	}
+	if more > 0 {
+		if e := verifTagged(ln, more, res, closers); e != "" {
+			return e
+		}
+	}
+	for _, it := range items {
+		*out = append(*out, res[it.index]...)
+	}
+	return ""
 }
